@@ -1355,3 +1355,10 @@ package yqlib
 //@   requires d != nil && lhs != nil && rhs != nil
 //@   at mergeObjects: assert @merge-fills-a-fresh-copy-of-the-left-operand {C04} fresh(arg2) && arg2 != lhs && arg2 != rhs && arg3 == rhs && !arg1.DontAutoCreate
 //@   ensures @null-on-the-right-is-the-identity {C04} implies(old(rhs.Tag) == "!!null", result1 == nil && result0 != nil && fresh(result0) && sameScalarAttrs(result0, lhs) && len(result0.Content) == len(lhs.Content))
+
+// operator_flatten.go: flatten rewrites the Content of its argument and of the sequences nested in it.
+// flattenOp hands it a deep copy (Copy clones content recursively); the contracts carry freshness one level
+// deep only, so the nested part of this frame is assumed, not proved.
+//@ func flatten
+//@   trusted
+//@   modifies node.Content
